@@ -75,7 +75,42 @@ func genC15(t *rapid.T) CaseC15 {
 	return c
 }
 
-func checkC15(c CaseC15, x *hx.Ctx) *hx.Failure {
+func checkC15(c CaseC15, x *hx.Ctx) (fail *hx.Failure) {
+	// every query is evaluated twice in a row: the functions are pure, a repetition must agree
+	unstable := func(what string, a, b gots.PTS) {
+		if fail == nil {
+			fail = hx.Failf("unstable-"+what, "%s(%d, %d) gives different answers when evaluated twice in a row", what, uint64(a), uint64(b))
+		}
+	}
+	After := func(a, b gots.PTS) bool {
+		r := a.After(b)
+		if a.After(b) != r {
+			unstable("After", a, b)
+		}
+		return r
+	}
+	GE := func(a, b gots.PTS) bool {
+		r := a.GreaterOrEqual(b)
+		if a.GreaterOrEqual(b) != r {
+			unstable("GreaterOrEqual", a, b)
+		}
+		return r
+	}
+	RO := func(a, b gots.PTS) bool {
+		r := a.RolledOver(b)
+		if a.RolledOver(b) != r {
+			unstable("RolledOver", a, b)
+		}
+		return r
+	}
+	Dur := func(a, b gots.PTS) uint64 {
+		r := a.DurationFrom(b)
+		if a.DurationFrom(b) != r {
+			unstable("DurationFrom", a, b)
+		}
+		return r
+	}
+
 	p, q, d := c.P, c.Q, c.D
 	P, Q := gots.PTS(p), gots.PTS(q)
 	wrapped := p+d > c15Max
@@ -86,11 +121,11 @@ func checkC15(c CaseC15, x *hx.Ctx) *hx.Failure {
 
 	// rolled over definition
 	wantRO := p < c15Lower && q > c15Upper
-	if got := P.RolledOver(Q); got != wantRO {
+	if got := RO(P, Q); got != wantRO {
 		return hx.Failf("rolledover-def", "PTS(%d).RolledOver(%d)=%v want %v", p, q, got, wantRO)
 	}
 	wantRO2 := q < c15Lower && p > c15Upper
-	if got := Q.RolledOver(P); got != wantRO2 {
+	if got := RO(Q, P); got != wantRO2 {
 		return hx.Failf("rolledover-def", "PTS(%d).RolledOver(%d)=%v want %v", q, p, got, wantRO2)
 	}
 
@@ -100,27 +135,27 @@ func checkC15(c CaseC15, x *hx.Ctx) *hx.Failure {
 	if uint64(R) != want {
 		return hx.Failf("add", "PTS(%d).Add(%d)=%d want %d", p, d, uint64(R), want)
 	}
-	if !R.After(P) {
+	if !After(R, P) {
 		return hx.Failf("add-after", "PTS(%d).Add(%d)=%d is not After p", p, d, uint64(R))
 	}
-	if P.After(R) {
+	if After(P, R) {
 		return hx.Failf("add-after", "p=%d is After p.Add(%d)=%d", p, d, uint64(R))
 	}
-	if got := R.RolledOver(P); got != wrapped {
+	if got := RO(R, P); got != wrapped {
 		return hx.Failf("add-rolledover", "p=%d d=%d: sum.RolledOver(p)=%v but wrapped=%v", p, d, got, wrapped)
 	}
-	if got := R.DurationFrom(P); got != d {
+	if got := Dur(R, P); got != d {
 		return hx.Failf("add-duration", "p=%d d=%d: sum.DurationFrom(p)=%d", p, d, got)
 	}
-	if got := P.DurationFrom(R); got != d {
+	if got := Dur(P, R); got != d {
 		return hx.Failf("add-duration", "p=%d d=%d: p.DurationFrom(sum)=%d", p, d, got)
 	}
-	if !R.GreaterOrEqual(P) || P.GreaterOrEqual(R) {
+	if !GE(R, P) || GE(P, R) {
 		return hx.Failf("add-ge", "p=%d d=%d: GreaterOrEqual inconsistent with After", p, d)
 	}
 
 	// ordering laws on (p, q)
-	pa, qa := P.After(Q), Q.After(P)
+	pa, qa := After(P, Q), After(Q, P)
 	n := 0
 	if pa {
 		n++
@@ -134,24 +169,24 @@ func checkC15(c CaseC15, x *hx.Ctx) *hx.Failure {
 	if n != 1 {
 		return hx.Failf("order-total", "p=%d q=%d: pAfterq=%v qAfterp=%v equal=%v (exactly one must hold)", p, q, pa, qa, p == q)
 	}
-	if P.After(P) || Q.After(Q) {
+	if After(P, P) || After(Q, Q) {
 		return hx.Failf("order-irreflexive", "p=%d q=%d: a time is After itself", p, q)
 	}
-	if got := P.GreaterOrEqual(Q); got != (pa || p == q) {
+	if got := GE(P, Q); got != (pa || p == q) {
 		return hx.Failf("ge-def", "p=%d q=%d: GreaterOrEqual=%v After=%v", p, q, got, pa)
 	}
-	if got := Q.GreaterOrEqual(P); got != (qa || p == q) {
+	if got := GE(Q, P); got != (qa || p == q) {
 		return hx.Failf("ge-def", "q=%d p=%d: GreaterOrEqual=%v After=%v", q, p, got, qa)
 	}
-	d1, d2 := P.DurationFrom(Q), Q.DurationFrom(P)
+	d1, d2 := Dur(P, Q), Dur(Q, P)
 	if d1 != d2 {
 		return hx.Failf("duration-symmetric", "p=%d q=%d: %d vs %d", p, q, d1, d2)
 	}
 	if (d1 == 0) != (p == q) {
 		return hx.Failf("duration-zero", "p=%d q=%d: duration %d", p, q, d1)
 	}
-	if P.DurationFrom(P) != 0 {
-		return hx.Failf("duration-zero", "p=%d: DurationFrom(self)=%d", p, P.DurationFrom(P))
+	if Dur(P, P) != 0 {
+		return hx.Failf("duration-zero", "p=%d: DurationFrom(self)=%d", p, Dur(P, P))
 	}
 	// reference duration: rollover pairs measure across the wrap, others directly
 	var wantDur uint64
@@ -170,18 +205,32 @@ func checkC15(c CaseC15, x *hx.Ctx) *hx.Failure {
 	}
 
 	// sentinels
-	for _, v := range []gots.PTS{P, Q, R} {
-		if !v.After(gots.PtsNegativeInfinity) {
+	for i, v := range []gots.PTS{P, Q, R} {
+		// the answers must not depend on what was asked before: precede the sentinel
+		// queries by a rollover pair in either direction or by the case's own pair
+		switch (i + int(d)) % 3 {
+		case 0:
+			After(gots.PTS(5), gots.PTS(c15Max-5))
+		case 1:
+			Dur(gots.PTS(c15Max-7), gots.PTS(3))
+		default:
+			GE(P, Q)
+		}
+		if !After(v, gots.PtsNegativeInfinity) {
 			return hx.Failf("sentinel-neg", "%d is not After negative infinity", uint64(v))
 		}
-		if v.After(gots.PtsPositiveInfinity) {
+		if !GE(v, gots.PtsNegativeInfinity) || GE(v, gots.PtsPositiveInfinity) {
+			return hx.Failf("sentinel-ge", "GreaterOrEqual against the sentinels is wrong for %d", uint64(v))
+		}
+		After(gots.PTS(c15Max-1), gots.PTS(1))
+		if After(v, gots.PtsPositiveInfinity) {
 			return hx.Failf("sentinel-pos", "%d is After positive infinity", uint64(v))
 		}
-		if v.RolledOver(gots.PtsNegativeInfinity) || v.RolledOver(gots.PtsPositiveInfinity) {
+		if RO(v, gots.PtsNegativeInfinity) || RO(v, gots.PtsPositiveInfinity) {
 			return hx.Failf("sentinel-rollover", "%d rolled over relative to a sentinel", uint64(v))
 		}
 	}
-	return nil
+	return fail
 }
 
 var propC15 = hx.Register(hx.Prop[CaseC15]{ID: "C15", Gen: genC15, Check: checkC15})
